@@ -434,6 +434,41 @@ var knownSysex = [][]byte{
 	{0xF0, 0xF7},
 }
 
+// subMillis: gaps that are not whole milliseconds (a 24 ppq clock at 120 bpm
+// ticks every 20.833 ms) between Sends of one message each: whatever the
+// driver does with the fractions, it does the same for every option set - the
+// remaining messages keep the time stamps the all-options listener sees.
+func subMillis() {
+	msgs := [][]byte{{0xF8}, {0x90, 0x3C, 0x40}, {0xF8}, {0xFE}, {0xF8}, {0xF0, 0x01, 0xF7}, {0xF8}, {0xFE}, {0x80, 0x3C, 0x00}, {0xF8}, {0xC0, 0x05}}
+	for _, gap := range []time.Duration{600 * time.Microsecond, 20833 * time.Microsecond, 1499 * time.Microsecond, 999 * time.Microsecond, 2 * time.Millisecond} {
+		for mask := 0; mask < 8; mask++ {
+			o := ls.Options{SysEx: mask&1 != 0, TimeCode: mask&2 != 0, ActiveSense: mask&4 != 0, BufSize: buf}
+			full := ls.NewLoop(ls.All(buf))
+			rest := ls.NewLoop(o)
+			ctx.Eval()
+			var raw []byte
+			var chunks []int
+			for _, m := range msgs {
+				full.Drv.Sleep(gap)
+				rest.Drv.Sleep(gap)
+				full.Send(m)
+				rest.Send(m)
+				raw = append(raw, m...)
+				chunks = append(chunks, len(m))
+			}
+			want := project(full.Got, o)
+			if len(want) != len(full.Got) {
+				ctx.NontrivialN(1)
+			}
+			if d := diff(want, rest.Got); d != "" {
+				report("filter:"+d+":"+optName(o)+":sub-millisecond-gaps", o, raw, chunks, nil,
+					fmt.Sprintf("gaps of %v between the Sends: with all options [%s]; with %s [%s]", gap, ls.RenderDeliveries(full.Got), optName(o), ls.RenderDeliveries(rest.Got)))
+			}
+			ctx.Add("sub_millisecond_plays", 1)
+		}
+	}
+}
+
 func knownSysexSpace() {
 	const big = 64
 	all := ls.All(big)
@@ -497,7 +532,7 @@ func main() {
 	}
 	ctx.Jobs("sender", len(jobs), func(j int) { senderSpace(jobs[j].o, jobs[j].first) })
 	ctx.Jobs("relisten", len(cs), func(j int) { relistenSpace(j) })
-	ctx.Jobs("known-sysex", 1, func(int) { knownSysexSpace() })
+	ctx.Jobs("known-sysex", 1, func(int) { knownSysexSpace(); subMillis() })
 	nc := len(chunkClasses)
 	ctx.Jobs("long-chunks", nc*nc, func(j int) { chunkSpace(j/nc, j%nc) })
 	ctx.Set("traces_validated_against_impl", ctx.GetInt("transitions"))
